@@ -254,7 +254,7 @@ def check_distance_grid(ctx, distances_kpc, dmin, dmax, step, wit, keyp='grid'):
     return ok
 
 
-def check_fit3d(ctx, truth, valid, flux, error, info, witness, keyp='fit3d'):
+def check_fit3d(ctx, truth, valid, flux, error, info, witness, keyp='fit3d', check_min=True):
     valid = np.asarray(valid)
     logf, sig, w = O.transform(valid, flux, error)
     idx, ok = check_structure(ctx, truth, info, keyp)
@@ -315,7 +315,8 @@ def check_fit3d(ctx, truth, valid, flux, error, info, witness, keyp='fit3d'):
     minH = np.min(Hb, axis=1)
     tolrow = 1e-9 * np.abs(chi) + np.max(ctol, axis=1) + 1e-300
     # chi2 is the minimum over the grid
-    bad = np.where(~((chi >= minL - tolrow) & (chi <= minH + tolrow)))[0]
+    fin = np.isfinite(chi)
+    bad = np.where(~((chi >= minL - tolrow) & (chi <= minH + tolrow)) & check_min)[0]
     if bad.size:
         i = bad[0]
         ctx.violation(keyp + ':chi2-not-grid-minimum', 'reported chi^2 is not the minimum over the distance grid',
@@ -323,7 +324,7 @@ def check_fit3d(ctx, truth, valid, flux, error, info, witness, keyp='fit3d'):
                           ref_best_j=int(np.argmin(Lb[i])), rep_j=int(jj[i])))
     # ... and is attained at the reported distance
     Lr, Hr = Lb[rows, jj], Hb[rows, jj]
-    bad = np.where(~((chi >= Lr - tolrow) & (chi <= Hr + tolrow) & (Lr <= minH + 2 * tolrow)))[0]
+    bad = np.where(~((chi >= Lr - tolrow) & (chi <= Hr + tolrow) & ((Lr <= minH + 2 * tolrow) | (not check_min))) & (fin | check_min))[0]
     if bad.size:
         i = bad[0]
         ctx.violation(keyp + ':chi2-not-at-reported-distance', 'reported chi^2 / A_V / scale do not belong to the same trial distance',
@@ -338,8 +339,8 @@ def check_fit3d(ctx, truth, valid, flux, error, info, witness, keyp='fit3d'):
     clear_lo = au < lo - tolA
     clear_hi = au > hi + tolA
     interior = (au > lo + tolA) & (au < hi - tolA)
-    bad = np.where((clear_lo & (av != lo)) | (clear_hi & (av != hi)) | (interior & (np.abs(av - ar) > tolA))
-                   | ~((av >= lo) & (av <= hi)))[0]
+    bad = np.where(((clear_lo & (av != lo)) | (clear_hi & (av != hi)) | (interior & (np.abs(av - ar) > tolA))
+                    | ~((av >= lo) & (av <= hi))) & (fin | check_min))[0]
     if bad.size:
         i = bad[0]
         ctx.violation(keyp + ':av-not-clipped-optimum', 'reported A_V is not the least-squares optimum at the reported distance clipped to the range',
@@ -348,3 +349,35 @@ def check_fit3d(ctx, truth, valid, flux, error, info, witness, keyp='fit3d'):
     return {'rows': nrow, 'clipped': int(np.sum(clear_lo | clear_hi)), 'interior': int(np.sum(interior)),
             'best_first': int(np.sum(jj == 0)), 'best_last': int(np.sum(jj == nd - 1)),
             'best_mid': int(np.sum((jj > 0) & (jj < nd - 1))), 'penalised': n_pen}
+
+
+def check_model_fluxes(ctx, truth, info, witness, keyp='model-fluxes'):
+    """C04: stored predicted log10 fluxes = model log10 flux + A_V k (+ distance scaling implied by scale)"""
+    if info.model_fluxes is None:
+        ctx.violation(keyp + ':absent', 'Fitter.fit returned no predicted fluxes', witness)
+        return False
+    idx = rows_to_truth(truth, info)
+    if np.any(idx < 0):
+        return False
+    av = np.asarray(info.av, LD)
+    sc = np.asarray(info.sc, float)
+    mf = np.asarray(info.model_fluxes, float)
+    if truth.logd is None:
+        pred = truth.logm[idx] + av[:, None] * truth.k[None, :] - 2 * np.asarray(sc, LD)[:, None]
+    else:
+        jj = np.array([int(np.argmin(np.abs(truth.logd - s))) for s in sc])
+        pred = truth.logm[idx, jj, :] + av[:, None] * truth.k[None, :]
+    pred = np.asarray(pred, float)
+    if mf.shape != pred.shape:
+        ctx.violation(keyp + ':shape', 'predicted-flux array has the wrong shape', dict(witness, got=mf.shape, want=pred.shape))
+        return False
+    tol = 1e-10 * (1 + np.abs(pred)) + truth.delta
+    fin = np.isfinite(pred)
+    bad = np.where(fin & ~(np.abs(mf - pred) <= tol))
+    if bad[0].size:
+        i, f = int(bad[0][0]), int(bad[1][0])
+        ctx.violation(keyp + ':mismatch', "stored predicted flux is not the row's own model flux + A_V*k + distance scaling",
+                      dict(witness, row=i, band=f, model=str(info.model_name[i]), stored=float(mf[i, f]), expected=float(pred[i, f]),
+                           av=float(av[i]), sc=float(sc[i])))
+        return False
+    return True
